@@ -1,0 +1,284 @@
+// Verification hooks for the transport layer.
+//
+// Only compiled with the cargo feature `verif_hooks`, which is off by default.
+//
+// An [Interceptor] is consulted before and after every storage operation of a
+// [Transport](super::Transport) that was wrapped by `Transport::with_interceptor`
+// (and of every transport derived from it by `chdir` or `clone`). It sees the
+// verb, the path relative to the root of the wrapped transport, the payload of
+// writes and the outcome. `before` may block (to park the caller until a
+// scheduler releases it) and may make the operation fail without being executed.
+
+use std::fmt;
+use std::path::PathBuf;
+use std::sync::Arc;
+
+use async_trait::async_trait;
+use bytes::Bytes;
+use url::Url;
+
+use super::protocol::Protocol;
+use super::{DirEntry, Error, ErrorKind, Metadata, Result, WriteMode};
+
+/// The seven storage verbs of a transport.
+#[derive(Copy, Clone, Debug, Eq, PartialEq)]
+pub enum Verb {
+    Read,
+    Write,
+    ListDir,
+    CreateDir,
+    Metadata,
+    RemoveFile,
+    RemoveDirAll,
+}
+
+/// One storage operation about to happen, or that just happened.
+#[derive(Debug)]
+pub struct Op<'a> {
+    pub verb: Verb,
+    /// Path relative to the root of the transport on which the interceptor was installed.
+    pub path: &'a str,
+    /// Content, for writes.
+    pub content: Option<&'a [u8]>,
+    /// Write mode, for writes.
+    pub mode: Option<WriteMode>,
+}
+
+/// What the interceptor wants to happen to an operation.
+#[derive(Copy, Clone, Debug, Eq, PartialEq)]
+pub enum Decision {
+    /// Execute the operation normally.
+    Proceed,
+    /// Do not execute the operation; return an error of this kind to the caller.
+    Fail(ErrorKind),
+}
+
+/// The result of an operation, as shown to the interceptor.
+#[derive(Debug)]
+pub enum Outcome<'a> {
+    /// A write, create_dir, remove_file or remove_dir_all succeeded.
+    Done,
+    /// A read succeeded with this content.
+    Bytes(&'a [u8]),
+    /// A list_dir succeeded with these entries.
+    List(&'a [DirEntry]),
+    /// A metadata call succeeded.
+    Meta(&'a Metadata),
+    /// The operation failed (or was made to fail) with this kind of error.
+    Err(ErrorKind),
+}
+
+pub trait Interceptor: Send + Sync + 'static {
+    /// Called before the operation is passed to the underlying protocol.
+    fn before(&self, op: &Op<'_>) -> Decision;
+
+    /// Called after the operation finished (or was made to fail), before the
+    /// result is returned to the caller.
+    fn after(&self, op: &Op<'_>, outcome: &Outcome<'_>);
+}
+
+pub(super) struct Hooked {
+    inner: Arc<dyn Protocol>,
+    /// Path of this protocol relative to the root where the interceptor was installed.
+    sub_path: String,
+    interceptor: Arc<dyn Interceptor>,
+}
+
+impl Hooked {
+    pub(super) fn new(inner: Arc<dyn Protocol>, interceptor: Arc<dyn Interceptor>) -> Hooked {
+        Hooked {
+            inner,
+            sub_path: String::new(),
+            interceptor,
+        }
+    }
+
+    fn full(&self, relpath: &str) -> String {
+        join(&self.sub_path, relpath)
+    }
+
+    fn injected(&self, kind: ErrorKind) -> Error {
+        Error {
+            kind,
+            source: None,
+            url: None,
+        }
+    }
+}
+
+fn join(a: &str, b: &str) -> String {
+    let b = b.trim_matches('/');
+    let b = if b == "." { "" } else { b };
+    if a.is_empty() {
+        b.to_owned()
+    } else if b.is_empty() {
+        a.to_owned()
+    } else {
+        format!("{a}/{b}")
+    }
+}
+
+impl fmt::Debug for Hooked {
+    fn fmt(&self, f: &mut fmt::Formatter<'_>) -> fmt::Result {
+        write!(f, "Hooked({:?}, {:?})", self.inner, self.sub_path)
+    }
+}
+
+#[async_trait]
+impl Protocol for Hooked {
+    async fn read(&self, path: &str) -> Result<Bytes> {
+        let full = self.full(path);
+        let op = Op {
+            verb: Verb::Read,
+            path: &full,
+            content: None,
+            mode: None,
+        };
+        if let Decision::Fail(kind) = self.interceptor.before(&op) {
+            self.interceptor.after(&op, &Outcome::Err(kind));
+            return Err(self.injected(kind));
+        }
+        let r = self.inner.read(path).await;
+        match &r {
+            Ok(b) => self.interceptor.after(&op, &Outcome::Bytes(b)),
+            Err(e) => self.interceptor.after(&op, &Outcome::Err(e.kind())),
+        }
+        r
+    }
+
+    async fn write(&self, relpath: &str, content: &[u8], mode: WriteMode) -> Result<()> {
+        let full = self.full(relpath);
+        let op = Op {
+            verb: Verb::Write,
+            path: &full,
+            content: Some(content),
+            mode: Some(mode),
+        };
+        if let Decision::Fail(kind) = self.interceptor.before(&op) {
+            self.interceptor.after(&op, &Outcome::Err(kind));
+            return Err(self.injected(kind));
+        }
+        let r = self.inner.write(relpath, content, mode).await;
+        match &r {
+            Ok(()) => self.interceptor.after(&op, &Outcome::Done),
+            Err(e) => self.interceptor.after(&op, &Outcome::Err(e.kind())),
+        }
+        r
+    }
+
+    async fn list_dir(&self, relpath: &str) -> Result<Vec<DirEntry>> {
+        let full = self.full(relpath);
+        let op = Op {
+            verb: Verb::ListDir,
+            path: &full,
+            content: None,
+            mode: None,
+        };
+        if let Decision::Fail(kind) = self.interceptor.before(&op) {
+            self.interceptor.after(&op, &Outcome::Err(kind));
+            return Err(self.injected(kind));
+        }
+        let r = self.inner.list_dir(relpath).await;
+        match &r {
+            Ok(l) => self.interceptor.after(&op, &Outcome::List(l)),
+            Err(e) => self.interceptor.after(&op, &Outcome::Err(e.kind())),
+        }
+        r
+    }
+
+    async fn create_dir(&self, relpath: &str) -> Result<()> {
+        let full = self.full(relpath);
+        let op = Op {
+            verb: Verb::CreateDir,
+            path: &full,
+            content: None,
+            mode: None,
+        };
+        if let Decision::Fail(kind) = self.interceptor.before(&op) {
+            self.interceptor.after(&op, &Outcome::Err(kind));
+            return Err(self.injected(kind));
+        }
+        let r = self.inner.create_dir(relpath).await;
+        match &r {
+            Ok(()) => self.interceptor.after(&op, &Outcome::Done),
+            Err(e) => self.interceptor.after(&op, &Outcome::Err(e.kind())),
+        }
+        r
+    }
+
+    async fn metadata(&self, relpath: &str) -> Result<Metadata> {
+        let full = self.full(relpath);
+        let op = Op {
+            verb: Verb::Metadata,
+            path: &full,
+            content: None,
+            mode: None,
+        };
+        if let Decision::Fail(kind) = self.interceptor.before(&op) {
+            self.interceptor.after(&op, &Outcome::Err(kind));
+            return Err(self.injected(kind));
+        }
+        let r = self.inner.metadata(relpath).await;
+        match &r {
+            Ok(m) => self.interceptor.after(&op, &Outcome::Meta(m)),
+            Err(e) => self.interceptor.after(&op, &Outcome::Err(e.kind())),
+        }
+        r
+    }
+
+    async fn remove_file(&self, relpath: &str) -> Result<()> {
+        let full = self.full(relpath);
+        let op = Op {
+            verb: Verb::RemoveFile,
+            path: &full,
+            content: None,
+            mode: None,
+        };
+        if let Decision::Fail(kind) = self.interceptor.before(&op) {
+            self.interceptor.after(&op, &Outcome::Err(kind));
+            return Err(self.injected(kind));
+        }
+        let r = self.inner.remove_file(relpath).await;
+        match &r {
+            Ok(()) => self.interceptor.after(&op, &Outcome::Done),
+            Err(e) => self.interceptor.after(&op, &Outcome::Err(e.kind())),
+        }
+        r
+    }
+
+    async fn remove_dir_all(&self, relpath: &str) -> Result<()> {
+        let full = self.full(relpath);
+        let op = Op {
+            verb: Verb::RemoveDirAll,
+            path: &full,
+            content: None,
+            mode: None,
+        };
+        if let Decision::Fail(kind) = self.interceptor.before(&op) {
+            self.interceptor.after(&op, &Outcome::Err(kind));
+            return Err(self.injected(kind));
+        }
+        let r = self.inner.remove_dir_all(relpath).await;
+        match &r {
+            Ok(()) => self.interceptor.after(&op, &Outcome::Done),
+            Err(e) => self.interceptor.after(&op, &Outcome::Err(e.kind())),
+        }
+        r
+    }
+
+    fn chdir(&self, relpath: &str) -> Arc<dyn Protocol> {
+        Arc::new(Hooked {
+            inner: self.inner.chdir(relpath),
+            sub_path: join(&self.sub_path, relpath),
+            interceptor: Arc::clone(&self.interceptor),
+        })
+    }
+
+    fn url(&self) -> &Url {
+        self.inner.url()
+    }
+
+    fn local_path(&self) -> Option<PathBuf> {
+        self.inner.local_path()
+    }
+}
